@@ -210,6 +210,10 @@ def handle (st : St) (args : List String) (impl : String) : St × Verdict :=
     | none => (st, .unknown)
   | ["root"] => (st, cmpSpec (showRoot (root realHF st.hashes)) impl)
   | ["validate"] => (st, cmpSpec (showBool (validate realHF st.hashes)) impl)
+  -- `PMMR::validate` over a copy of the backend whose hash at `pos` was replaced (state unchanged)
+  | ["validatex", p, h] => match nat? p, parseHex h with
+    | some p, some h => (st, cmpSpec (showBool (validate realHF (st.hashes.set p h))) impl)
+    | _, _ => (st, .unknown)
   | ["peakhashes"] => (st, cmpSpec (showHexList (peakHashes st.hashes)) impl)
   | ["proof", p] => match nat? p with
     | some p => match merkleProof realHF st.hashes p with
